@@ -151,25 +151,27 @@ Definition r_item (r : res shape) : list Z := r_res r_shape r.
 Definition r_opt_item (o : option (res shape)) : list Z :=
   match o with None => [0] | Some r => 1 :: r_item r end.
 
-(** One reader call, as a program returning its rendering. *)
-Definition run_rop (cap : nat) (req : option shape_type) (st : rstate) (o : rop) : prog (list Z * rstate) :=
+(** One reader call ([r_call], Model/Reader.v), rendered. *)
+Definition rcall_of (cap : nat) (o : rop) : rcall :=
   match o with
-  | OIter j =>
-      let fuel := if j <? 0 then cap else Nat.min cap (Z.to_nat j) in
-      x <-- it_pull fuel req st ;;
-      let '(items, ended, st') := x in
-      Ret (zlen items :: flat_map r_item items ++ [r_bool ended], st')
-  | ONth i => x <-- r_read_nth req st i ;; Ret (r_opt_item (fst x), snd x)
-  | OSeek k => x <-- r_seek st k ;; Ret (r_unit_res (fst x), snd x)
-  | OCount => Ret (r_res (fun n => [n]) (r_count st), st)
-  | OHint => Ret (match size_hint st with None => [0] | Some n => [1; n] end, st)
+  | OIter j => RIter (if j <? 0 then cap else Nat.min cap (Z.to_nat j))
+  | ONth i => RNth i
+  | OSeek k => RSeek k
+  | OCount => RCount
+  | OHint => RHint
   end.
 
-Fixpoint run_rops (cap : nat) (req : option shape_type) (st : rstate) (os : list rop) : prog (list Z) :=
-  match os with
-  | [] => Ret []
-  | o :: r => x <-- run_rop cap req st o ;; ys <-- run_rops cap req (snd x) r ;; Ret (fst x ++ ys)
+Definition r_rout (o : rout) : list Z :=
+  match o with
+  | OItems items ended => zlen items :: flat_map r_item items ++ [r_bool ended]
+  | ONthR x => r_opt_item x
+  | OSeekR r => r_unit_res r
+  | OCountR r => r_res (fun n => [n]) r
+  | OHintR h => match h with None => [0] | Some n => [1; n] end
   end.
+
+Definition run_rops (cap : nat) (req : option shape_type) (st : rstate) (os : list rop) : prog (list Z) :=
+  x <-- r_calls req st (map (rcall_of cap) os) ;; Ret (flat_map r_rout (fst x)).
 
 Definition decode_req (c : Z) : option (option shape_type) :=
   if c =? -1 then Some None else
